@@ -22,10 +22,6 @@ pub(crate) fn lock_held() -> bool {
     }
 }
 
-pub(crate) static mut PANICKING: bool = false;
-pub(crate) fn ghost_panicking() -> bool {
-    unsafe { PANICKING }
-}
 
 /// monitor bound onto the OS model's event hook: every mmap / mprotect / munmap / flush (hence every
 /// code write, which is always followed by its flush and preceded by its mprotect) happens under the lock
@@ -38,10 +34,6 @@ fn mon_event(kind: u8) {
 static mut MON_SEEN: [usize; 8] = [0; 8];
 
 /// a `&'static str` over the first `len` bytes of `buf` (printable ASCII assumed by the caller)
-pub(crate) fn ghost_not_panicking() -> bool {
-    unsafe { !PANICKING }
-}
-
 unsafe fn as_static_str(buf: &[u8], len: usize) -> &'static str {
     std::mem::transmute::<&str, &'static str>(std::str::from_utf8_unchecked(&buf[..len]))
 }
